@@ -250,7 +250,55 @@ def spec_first_divergence(events, rec0, rec, tol):
     return False
 
 
-def check_replay(c, exe, job, r, rp):
+def scene_commands(r):
+    d = r["dag"]
+    data = r["bytes"]
+    body = data[20:]
+    toks = dag_tokens(d)
+    pv = []
+    for k, v in d["pvals"].items():
+        pv += [str(k)] + val_tokens(v)
+    enc_cmd = "ENC " + " ".join(toks + [str(len(d["pvals"]))] + pv + [str(len(d["deps"]))] + [str(x) for x in d["deps"]])
+    dec_prefix = "DEC " + " ".join(toks + [str(len(d["deps"]))] + [str(x) for x in d["deps"]]) + " "
+    hdr = r["header"]
+    hdr_prefix = f"HDR {hdr['version']} {hdr['ast']} {hdr['opts']} "
+    cmds = [enc_cmd, dec_prefix + (body or "-")]
+    cuts = [t[0] for t in r["trunc"]]
+    for cut in cuts:
+        p = data[:2 * cut]
+        if cut < 10:
+            cmds.append(hdr_prefix + (p or "-"))
+        else:
+            cmds.append(dec_prefix + (p[20:] or "-"))
+    for pos, b, oc in r["corrupt"]:
+        d2 = data[:2 * pos] + "%02x" % b + data[2 * pos + 2:]
+        cmds.append((hdr_prefix + d2) if pos < 10 else (dec_prefix + (d2[20:] or "-")))
+    cmds.append("ROLES " + dec_prefix[4:] + (body or "-"))
+    return cmds, dec_prefix, hdr_prefix
+
+
+def replay_commands(rp):
+    cmds, idx = [], []
+    for n, rec in enumerate(rp["runs"]):
+        cmd = sim_command(rp["events"], rec)
+        if cmd is not None:
+            cmds.append(cmd)
+            idx.append(n)
+    return cmds, idx
+
+
+def model_outputs(exe, r):
+    """All driver work for one program (run in a worker thread)."""
+    if "crash" in r or "skip" in r or r["dag"]["unsupported"]:
+        return r.get("name"), ([], {})
+    sc = scene_commands(r)[0]
+    rp = r.get("replay")
+    rc, idx = replay_commands(rp) if rp and "skip" not in rp else ([], [])
+    outs = common.run_driver(exe, sc + rc)
+    return r.get("name"), (outs[:len(sc)], dict(zip(idx, outs[len(sc):])))
+
+
+def check_replay(c, exe, job, r, rp, model):
     from fractions import Fraction
     c.hist("replays")
     c.count(("replay", job["src"], job["seed"]), nontrivial=rp.get("ndraws", 0) > 0)
@@ -265,16 +313,9 @@ def check_replay(c, exe, job, r, rp):
             if not rp[key] and not mutated:
                 c.violation("replay", f"replay check failed: {key}", dict(base, which=key, detail={k: rp.get(k) for k in ("gen2_outcome", "extended_outcome")}))
     events, runs = rp["events"], rp["runs"]
-    cmds, idx = [], []
     for n, rec in enumerate(runs):
-        cmd = sim_command(events, rec)
-        if cmd is None:
+        if n not in model:
             c.hist("replay-model-skip:" + rec["kind"])
-        else:
-            cmds.append(cmd)
-            idx.append(n)
-    outs = common.run_driver(exe, cmds) if cmds else []
-    model = dict(zip(idx, outs))
     rec0 = runs[0]
     for n, rec in enumerate(runs):
         kind, oc = rec["kind"], rec["outcome"]
@@ -306,7 +347,12 @@ def check_replay(c, exe, job, r, rp):
             mo = m[0].split()[0]
             want = {"ok": "OK", "SerializationError": "FAIL", "DivergenceError": "DIVERGED"}.get(oc)
             c.cov["traces_validated_against_impl"] += 1
-            if mo != want:
+            blob = json.dumps([events[i].get("nodes", "") for i in rec["log"]]) + json.dumps([[pr[1] for pr in events[i].get("props", [])] for i in rec["log"]])
+            validated = '"str"' in blob or '"ori"' in blob
+            if kind == "corrupt" and oc == "SerializationError" and mo in ("OK", "DIVERGED") and validated:
+                # the model does not validate UTF-8 nor quaternions: the implementation refuses more
+                c.hist("replay-corrupt:payload-refused-by-impl-only")
+            elif mo != want:
                 c.violation("correspondence", "replay model and implementation end differently", dict(info, model=model[n][:300]))
             elif oc == "ok" and m[2] != (rec.get("out") or "-"):
                 c.violation("correspondence", "replay model records different bytes than the implementation", dict(info, model_out=m[2][:2000]))
@@ -373,7 +419,7 @@ def main():
         c.finish()
     exe = common.build_ocaml(PID)
     quick = c.tier == "quick"
-    nprog = 48 if quick else 1200
+    nprog = 48 if quick else 400
     rng = c.rng
     # corpus first
     jobs = []
@@ -387,8 +433,8 @@ def main():
         j.setdefault("npos", 50 if quick else 200)
         j.setdefault("alts", 5 if quick else 16)
         j.setdefault("max_cuts", 150 if quick else 600)
-        j.setdefault("replay_cuts", 25 if quick else 700)
-        j.setdefault("replay_corruptions", 12 if quick else 60)
+        j.setdefault("replay_cuts", 25 if quick else 500)      # thorough: EVERY cut of replays up to 500 bytes
+        j.setdefault("replay_corruptions", 12 if quick else 40)
     if c.replay:
         body = json.load(open(c.replay))
         jobs = [body["case"]["job"]] if "job" in body.get("case", {}) else jobs[:4]
@@ -431,7 +477,8 @@ def main():
     c.sample(dict(op=rcases[0], impl=impl[0], model=model[0]))
 
     # ---- (2) programs through the real scenario codec
-    chunks = [jobs[i::common.NCPU] for i in range(common.NCPU)]
+    nw = int(os.environ.get("VERIF_WORKERS", common.NCPU))   # dev knob: fewer implementation processes on a shared machine
+    chunks = [jobs[i::nw] for i in range(nw)]
     chunks = [ch for ch in chunks if ch]
     results = []
     with cf.ThreadPoolExecutor(len(chunks)) as ex:
@@ -439,6 +486,8 @@ def main():
             results += r["results"]
     by_name = {j["name"]: j for j in jobs}
     skipped = 0
+    with cf.ThreadPoolExecutor(min(8, common.NCPU)) as ex:
+        mouts = dict(ex.map(lambda r: model_outputs(exe, r), results))
     for r in results:
         job = by_name.get(r.get("name"))
         if "crash" in r:
@@ -475,28 +524,10 @@ def main():
             c.violation("foreign-data", "scene from a different program was not refused", dict(job=job, outcome=r.get("other_program")))
         if r.get("other_options") not in ("SerializationError", None):
             c.violation("foreign-data", "scene with different compile options was not refused", dict(job=job, outcome=r.get("other_options")))
-        # model: encode and decode
-        toks = dag_tokens(d)
-        pv = []
-        for k, v in d["pvals"].items():
-            pv += [str(k)] + val_tokens(v)
-        enc_cmd = "ENC " + " ".join(toks + [str(len(d["pvals"]))] + pv + [str(len(d["deps"]))] + [str(x) for x in d["deps"]])
-        dec_prefix = "DEC " + " ".join(toks + [str(len(d["deps"]))] + [str(x) for x in d["deps"]]) + " "
-        hdr = r["header"]
-        hdr_prefix = f"HDR {hdr['version']} {hdr['ast']} {hdr['opts']} "
-        cmds = [enc_cmd, dec_prefix + (body or "-")]
+        # model: encode and decode (driver output computed in parallel above)
+        cmds, dec_prefix, hdr_prefix = scene_commands(r)
         cuts = [t[0] for t in r["trunc"]]
-        for cut in cuts:
-            p = data[:2 * cut]
-            if cut < 10:
-                cmds.append(hdr_prefix + (p or "-"))
-            else:
-                cmds.append(dec_prefix + (p[20:] or "-"))
-        for pos, b, oc in r["corrupt"]:
-            d2 = data[:2 * pos] + "%02x" % b + data[2 * pos + 2:]
-            cmds.append((hdr_prefix + d2) if pos < 10 else (dec_prefix + (d2[20:] or "-")))
-        cmds.append("ROLES " + dec_prefix[4:] + (body or "-"))
-        out = common.run_driver(exe, cmds)
+        out = list(mouts[r["name"]][0])
         roles = byte_roles(d, out.pop())
         if out[0] != "SOME " + (body or "-"):
             c.violation("correspondence", "model encodes the sample to different bytes", dict(job=job, impl=body, model=out[0]))
@@ -535,7 +566,7 @@ def main():
         # replay
         rp = r.get("replay")
         if rp and "skip" not in rp:
-            check_replay(c, exe, job, r, rp)
+            check_replay(c, exe, job, r, rp, mouts[r["name"]][1])
         elif rp:
             c.hist("replay-skip")
     c.cov["programs"] = len(results) - skipped
